@@ -392,6 +392,7 @@ pub fn property() -> Property {
             ],
         },
         hang_is_violation: true,
+        hang_limit_s: 0,
         probes: vec![],
     }
 }
